@@ -58,6 +58,8 @@ def judge(path):
                                             dict(idx=idx, provider=prov, key=case[1], alg=case[2], base=["harness-signed", "libjwt-signed"][case[3]],
                                                  pin=["explicit alg", "key alg attribute"][case[4]], mutation=CLASSES[cls], variant=variant,
                                                  token=ev[7] if len(ev) > 7 else None)))
+                elif refvalid and cls == 0 and prov == "gnutls" and "secp256k1" in case[1]:
+                    c["unjudged_secp256k1_gnutls_base_rejected"] = c.get("unjudged_secp256k1_gnutls_base_rejected", 0) + 1
                 elif refvalid and cls == 0:
                     # unmutated base token rejected: not C01's business (C05), but it voids the positive control
                     c["base_rejected"] = c.get("base_rejected", 0) + 1
